@@ -134,6 +134,7 @@ type Store struct {
 	resetAt   map[int64]bool
 	tagFaults map[string][]Fault
 	stalls    map[string]*Stall
+	slowReply time.Duration // per-store override of SlowReplyDelay (0 = default)
 	closed    bool
 	unsupp    []string // texts of scripts outside the minilua subset
 	unknown   []string // unknown commands seen
@@ -325,6 +326,19 @@ func (s *Store) park(tag string) {
 	<-st.release
 }
 
+// SetSlowReply overrides SlowReplyDelay for this store.
+func (s *Store) SetSlowReply(d time.Duration) { s.mu.Lock(); s.slowReply = d; s.mu.Unlock() }
+
+// SlowReply is the delay a FaultSlowReply applies on this store.
+func (s *Store) SlowReply() time.Duration {
+	s.mu.Lock()
+	defer s.mu.Unlock()
+	if s.slowReply > 0 {
+		return s.slowReply
+	}
+	return SlowReplyDelay
+}
+
 // ClearFaults disarms every pending per-tag fault (those never consumed because the client did
 // not reach the store).
 func (s *Store) ClearFaults() { s.mu.Lock(); s.tagFaults = map[string][]Fault{}; s.mu.Unlock() }
@@ -460,7 +474,7 @@ func (s *Store) serve(id int64, c net.Conn) {
 			reset(c)
 			return
 		case FaultSlowReply:
-			time.Sleep(SlowReplyDelay)
+			time.Sleep(s.SlowReply())
 		}
 		writeReply(bw, reply)
 		if err := bw.Flush(); err != nil {
